@@ -296,7 +296,7 @@ func bsigRun(args []string) error {
 	// site signed in two passes, or an exchange added after the first pass): two vouched subsets that point at ONE leaf
 	s3a := &bsigner{"s3", s3.kcs, map[string]bool{hostA: true}}
 	s3b := &bsigner{"s3", s3.kcs, map[string]bool{hostB: true}}
-	seqs := [][]*bsigner{{s1}, {s3a, s3b}, {s3b, s5, s3a}, {s6, s2}, {s6, s5}, {s7, s8}, {s2}, {s3}, {s5, s1}, {s1, s2}, {s2, s1}, {s1, s3}, {s3, s1}, {s2, s3}, {s1, s2, s3}, {s4}, {s4, s2}, {s2, s4}, {s4, s2, s1}, {s5}, {s2, s5}}
+	seqs := [][]*bsigner{{s1}, {s6, s2}, {s6, s5}, {s7, s8}, {s3a, s3b}, {s3b, s5, s3a}, {s2}, {s3}, {s5, s1}, {s1, s2}, {s2, s1}, {s1, s3}, {s3, s1}, {s2, s3}, {s1, s2, s3}, {s4}, {s4, s2}, {s2, s4}, {s4, s2, s1}, {s5}, {s2, s5}}
 	ctx := &bsigCtx{}
 	var prev func()
 	week := int64(7 * 24 * 3600)
